@@ -62,7 +62,7 @@ structure AggOk (g : GraphVal) (agg : Agg) : Prop where
   /-- an instance import of a named interface is imported under the name of the interface
       (fails exactly for the shape of known finding `enc-explicit-interface-import-merged`,
       and for an instance import superseded by a higher version of its interface) -/
-  ifaceNamed : ∀ e ∈ agg.imports, e.2.kind = .instance → e.2.iface = none ∨ e.2.iface = some e.1
+  ifaceNamed : ∀ e ∈ agg.imports, e.2.kind = .instance → (agg.fix e.2).iface = none ∨ (agg.fix e.2).iface = some e.1
   /-- every unsatisfied argument resolves to an import of its own kind -/
   implicitKind : ∀ n ∈ g.nodes, ∀ slot sat p, n.kind = .instantiation slot sat → g.pkg? slot = some p →
     ∀ r ∈ unsatisfied p sat, aggKind agg r.name = some r.ty.kind
@@ -71,7 +71,7 @@ structure AggOk (g : GraphVal) (agg : Agg) : Prop where
 
 def aggOkCheck (g : GraphVal) (agg : Agg) : Bool :=
   decide (agg.imports.map (·.1)).Nodup &&
-  agg.imports.all (fun e => decide (e.2.kind = .instance → e.2.iface = none ∨ e.2.iface = some e.1)) &&
+  agg.imports.all (fun e => decide (e.2.kind = .instance → (agg.fix e.2).iface = none ∨ (agg.fix e.2).iface = some e.1)) &&
   g.nodes.all (fun n => match n.kind with
     | .instantiation slot sat => match g.pkg? slot with
       | some p => (unsatisfied p sat).all fun r => decide (aggKind agg r.name = some r.ty.kind)
